@@ -28,7 +28,7 @@ func MonitorC01(res *Result) []Finding {
 		return nil
 	}
 	if res.InputBlocked {
-		fs = append(fs, Finding{"c01:input-blocked:" + sc.shape(), "a send on Input() did not complete within 3 s: the pipeline stopped accepting messages"})
+		fs = append(fs, Finding{"c01:input-blocked:" + sc.shape(), "a send on Input() did not complete within its bound (5 s): the pipeline stopped accepting messages"})
 	}
 	if !res.CloseOK {
 		fs = append(fs, Finding{"c01:close-hangs:" + sc.shape(), fmt.Sprintf("Close/AsyncClose did not finish within %v (channels not closed)", closeBound)})
